@@ -37,7 +37,7 @@ def _seed_from_u64(ctx, args, ck):
     return RngObj('seeded', args[0])
 
 
-@model('SeedableRng::from_os_rng', 'SeedableRng::from_entropy', 'rand::rng', 'rand::thread_rng', 'rngs::thread::rng')
+@model('SeedableRng::from_os_rng', 'SeedableRng::from_entropy', 'rand::rng', 'rand::thread_rng', 'rngs::thread::rng', 'rng', 'thread_rng')
 def _from_os_rng(ctx, args, ck):
     return RngObj('os')
 
